@@ -6,7 +6,7 @@ use serde_json::{json, Map, Value};
 pub const SCHEMA_NAMES: &[&str] = &[
     "Pet", "Owner", "Order", "Item", "Items", "Tag", "Tags", "Status", "Address", "Addresses", "Category", "Event", "EvtWebhook",
     "Node", "Tree", "Money", "Id", "Ids", "Error", "ListPetsResponse", "GetPetResponse", "PetItem", "V1Thing", "HTTPConfig", "Type", "Self",
-    "Box", "Option", "Class", "Glass", "Policies", "Meta",
+    "Box", "Option", "Class", "Glass", "Policies", "Meta", "APIKeys", "ApiKey", "URLs", "Url", "LineItems", "LineItem",
 ];
 pub const PROP_NAMES: &[&str] = &[
     "id", "name", "tag", "status", "owner", "items", "tags", "createdAt", "created_at", "page-size", "pageSize", "type", "self", "fn", "ref",
@@ -380,6 +380,8 @@ impl<'a> SpecGen<'a> {
         let templates: &[(&str, &[&str])] = &[
             ("/pets", &[]), ("/pets/{petId}", &["petId"]), ("/owners/{ownerId}/pets/{petId}", &["ownerId", "petId"]), ("/orders", &[]),
             ("/orders/{order_id}/items", &["order_id"]), ("/search", &[]), ("/things/{thingId}/sub/{subId}/leaf", &["thingId", "subId"]), ("/status", &[]),
+            // a placeholder that repeats its collection's name, next to the collection itself; templates ending in a slash; the root
+            ("/user", &[]), ("/user/{user}", &["user"]), ("/gadgets/", &[]), ("/gadgets/{gadget_id}/parts/", &["gadget_id"]), ("/", &[]),
         ];
         let n_paths = self.rng.range(1, self.opts.max_paths.max(1));
         let mut paths = Map::new();
